@@ -921,6 +921,8 @@ def str_method(I, s, name, args, kw):
             except (ValueError, TypeError, IndexError) as e:
                 I.raise_(type(e), str(e))
     if name == 'join':
+        if hasattr(args[0], 'pyvc_join'):
+            return args[0].pyvc_join(I, s)
         parts = list(I.iterate(args[0]))
         out = []
         for i, p in enumerate(parts):
@@ -1425,6 +1427,8 @@ def json_snapshot(I, v, encoder=None):
 @model(json.dumps)
 def m_json_dumps(I, args, kw):
     v = args[0]
+    if hasattr(v, 'pyvc_json_dumps'):
+        return v.pyvc_json_dumps(I, kw)
     extra = set(kw) - {'skipkeys', 'sort_keys', 'indent', 'cls'}
     if extra:
         raise Unsupported(f'json.dumps options {extra}')
@@ -1464,6 +1468,9 @@ def m_json_loads(I, args, kw):
         raise Unsupported('json.loads options')
     if isinstance(s, JsonText):
         return json_copy(s.value, s.sort_keys)
+    if type(s).__name__ == 'GraphText':
+        from .iomodel import json_loads_hook
+        return json_loads_hook(I, s)
     if isinstance(s, str):
         try:
             return I.lift(json.loads(s))
